@@ -419,3 +419,386 @@ Section GenTotal.
     rewrite Hflat. cbn [bind]. apply gen_loop_total; [auto|]. intros p id ir [].
   Qed.
 End GenTotal.
+
+(** ** emission of an [Ok] result never fails *)
+Section EmitTotal.
+  Variable s : settings.
+
+  Lemma field_tokens_total f : no256 (fi_path f) = true -> exists t, field_tokens s f = Ok t.
+  Proof.
+    intros H. unfold field_tokens. cbv zeta.
+    destruct (tp_tokens_ok (alloc_tokens (s_alloc s)) _ H) as (t & Ht). rewrite Ht. cbn [bind].
+    destruct (fi_boxed f); eauto.
+  Qed.
+
+  Lemma struct_field_tokens_total k ph codec :
+    (forall f, In f (ckind_fields k) -> no256 (fi_path f) = true) ->
+    exists t, struct_field_tokens s k ph codec = Ok t.
+  Proof.
+    intros H. destruct k as [|fs|fs]; cbn [struct_field_tokens].
+    - destruct ph; eauto.
+    - destruct (mapM_total (fun '(name, f) =>
+                              let* t := field_tokens s f in
+                              Ok (compact_attr_of codec f ++ ["pub"; name; ":"] ++ t ++ [","]))
+                           (fun _ => True) fs) as (l & Hl & _).
+      { intros [name f] Hin. destruct (field_tokens_total f) as (t & Ht).
+        { apply H. cbn [ckind_fields]. apply in_map_iff. exists (name, f). split; [reflexivity|exact Hin]. }
+        rewrite Ht. cbn [bind]. eauto. }
+      rewrite Hl. cbn [bind]. eauto.
+    - destruct (mapM_total (fun f =>
+                              let* t := field_tokens s f in
+                              Ok (compact_attr_of codec f ++ ["pub"] ++ t ++ [","]))
+                           (fun _ => True) fs) as (l & Hl & _).
+      { intros f Hin. destruct (field_tokens_total f) as (t & Ht); [apply H; exact Hin|].
+        rewrite Ht. cbn [bind]. eauto. }
+      rewrite Hl. cbn [bind]. eauto.
+  Qed.
+
+  Lemma enum_field_tokens_total k codec :
+    (forall f, In f (ckind_fields k) -> no256 (fi_path f) = true) ->
+    exists t, enum_field_tokens s k codec = Ok t.
+  Proof.
+    intros H. destruct k as [|fs|fs]; cbn [enum_field_tokens].
+    - eauto.
+    - destruct (mapM_total (fun '(name, f) =>
+                              let* t := field_tokens s f in
+                              Ok (compact_attr_of codec f ++ [name; ":"] ++ t ++ [","]))
+                           (fun _ => True) fs) as (l & Hl & _).
+      { intros [name f] Hin. destruct (field_tokens_total f) as (t & Ht).
+        { apply H. cbn [ckind_fields]. apply in_map_iff. exists (name, f). split; [reflexivity|exact Hin]. }
+        rewrite Ht. cbn [bind]. eauto. }
+      rewrite Hl. cbn [bind]. eauto.
+    - destruct (mapM_total (fun f =>
+                              let* t := field_tokens s f in
+                              Ok (compact_attr_of codec f ++ t ++ [","]))
+                           (fun _ => True) fs) as (l & Hl & _).
+      { intros f Hin. destruct (field_tokens_total f) as (t & Ht); [apply H; exact Hin|].
+        rewrite Ht. cbn [bind]. eauto. }
+      rewrite Hl. cbn [bind]. eauto.
+  Qed.
+
+  Lemma type_ir_tokens_total ir : ir_no256 ir -> exists t, type_ir_tokens s ir = Ok t.
+  Proof.
+    unfold ir_no256, type_ir_tokens. intros H. destruct (ti_kind ir) as [c|name docs vs].
+    - cbn [kind_fields] in H.
+      destruct (struct_field_tokens_total (ci_kind c) (phantom_tokens (ti_unused ir)) (ti_codec ir) H)
+        as (t & Ht).
+      rewrite Ht. cbn [bind]. eauto.
+    - cbn [kind_fields] in H.
+      destruct (mapM_total (fun '(idx, c) =>
+                              let* fields := enum_field_tokens s (ci_kind c) (ti_codec ir) in
+                              Ok ((if ti_codec ir then codec_index idx else []) ++
+                                  doc_tokens (ci_docs c) ++ [ci_name c] ++ fields ++ [","]))
+                           (fun _ => True) vs) as (l & Hl & _).
+      { intros [idx c] Hin. destruct (enum_field_tokens_total (ci_kind c) (ti_codec ir)) as (t & Ht).
+        { intros f Hf. apply H. apply in_flat_map. exists (idx, c). split; [exact Hin|exact Hf]. }
+        rewrite Ht. cbn [bind]. eauto. }
+      rewrite Hl. cbn [bind]. eauto.
+  Qed.
+
+  Lemma module_tokens_S fuel' name es :
+    module_tokens s (S fuel') name es =
+    let* mods := mapM (fun h => module_tokens s fuel' h (under h es)) (child_names es) in
+    let* tys := mapM (fun e => type_ir_tokens s (snd (snd e))) (here es) in
+    Ok (["pub"; "mod"; name; "{"; "use"; "super"; ":"; ":"; s_root s; ";"] ++
+        List.concat mods ++ List.concat tys ++ ["}"]).
+  Proof. reflexivity. Qed.
+
+  Lemma insert_str_In x : forall l h, In h (insert_str x l) -> h = x \/ In h l.
+  Proof.
+    induction l as [|y l IH]; intros h H; cbn [insert_str] in H.
+    - destruct H as [<-|[]]. left; reflexivity.
+    - destruct (String.compare x y).
+      + right; exact H.
+      + destruct H as [<-|H]; [left; reflexivity|right; exact H].
+      + destruct H as [<-|H]; [right; left; reflexivity|].
+        destruct (IH _ H) as [->|H']; [left; reflexivity|right; right; exact H'].
+  Qed.
+
+  Lemma child_names_In : forall (es : list entry) h,
+    In h (child_names es) -> exists e a tl, In e es /\ fst e = h :: a :: tl.
+  Proof.
+    unfold child_names. induction es as [|e es IH]; intros h H; cbn [fold_right] in H; [destruct H|].
+    destruct (fst e) as [|h' [|a tl]] eqn:E.
+    - destruct (IH _ H) as (e' & a' & tl' & Hin & He). exists e', a', tl'. split; [right; exact Hin|exact He].
+    - destruct (IH _ H) as (e' & a' & tl' & Hin & He). exists e', a', tl'. split; [right; exact Hin|exact He].
+    - apply insert_str_In in H as [->|H].
+      + exists e, a, tl. split; [left; reflexivity|exact E].
+      + destruct (IH _ H) as (e' & a' & tl' & Hin & He). exists e', a', tl'. split; [right; exact Hin|exact He].
+  Qed.
+
+  Lemma under_In h (es : list entry) e' :
+    In e' (under h es) -> exists e h', In e es /\ fst e = h' :: fst e' /\ snd e' = snd e.
+  Proof.
+    unfold under. intros H. apply in_flat_map in H as (e & Hin & H).
+    destruct (fst e) as [|h' [|a tl]] eqn:E; try (destruct H; fail).
+    destruct (String.eqb h h'); [|destruct H]. destruct H as [<-|[]].
+    exists e, h'. split; [exact Hin|]. split; [exact E|reflexivity].
+  Qed.
+
+  Lemma module_tokens_total : forall fuel name (es : list entry),
+    0 < fuel -> (forall e, In e es -> List.length (fst e) < fuel) ->
+    (forall e, In e es -> ir_no256 (snd (snd e))) ->
+    exists toks, module_tokens s fuel name es = Ok toks.
+  Proof.
+    induction fuel as [|fuel IH]; intros name es Hpos Hlen Hir; [lia|].
+    rewrite module_tokens_S.
+    destruct (mapM_total (fun h => module_tokens s fuel h (under h es)) (fun _ => True) (child_names es))
+      as (mods & Hmods & _).
+    { intros h Hh. destruct (child_names_In _ _ Hh) as (e & a & tl & Hin & He).
+      pose proof (Hlen _ Hin) as Hl. rewrite He in Hl. cbn [List.length] in Hl.
+      destruct (IH h (under h es)) as (toks & Ht).
+      - lia.
+      - intros e' He'. destruct (under_In _ _ _ He') as (e0 & h' & Hin0 & Hf & _).
+        pose proof (Hlen _ Hin0) as Hl0. rewrite Hf in Hl0. cbn [List.length] in Hl0. lia.
+      - intros e' He'. destruct (under_In _ _ _ He') as (e0 & h' & Hin0 & _ & Hs).
+        rewrite Hs. apply Hir. exact Hin0.
+      - eauto. }
+    rewrite Hmods. cbn [bind].
+    match goal with
+    | |- context [mapM ?f (here es)] =>
+        destruct (mapM_total f (fun _ => True) (here es)) as (tys & Htys & _)
+    end.
+    { intros e He. unfold here in He. apply filter_In in He as [He _].
+      destruct (type_ir_tokens_total _ (Hir _ He)) as (t & Ht). eauto. }
+    rewrite Htys. cbn [bind]. eauto.
+  Qed.
+
+  Lemma max_depth_le : forall (m : items) e, In e m -> List.length (fst e) <= max_depth m.
+  Proof.
+    unfold max_depth. induction m as [|x m IH]; intros e H; [destruct H|]. cbn [fold_right].
+    destruct H as [<-|H]; [lia|]. specialize (IH _ H). lia.
+  Qed.
+
+  Lemma emit_module_total (m : items) :
+    (forall p id ir, In (p, (id, ir)) m -> ir_no256 ir) -> exists toks, emit_module s m = Ok toks.
+  Proof.
+    intros H. unfold emit_module. apply module_tokens_total.
+    - lia.
+    - intros e He. apply in_map_iff in He as (x & <- & Hx). cbn [fst].
+      pose proof (max_depth_le _ _ Hx). lia.
+    - intros e He. apply in_map_iff in He as ([p [id ir]] & <- & Hx). cbn [fst snd]. eapply H; eauto.
+  Qed.
+End EmitTotal.
+
+(** ** [types_equal] terminates on closed registries: every descent adds a
+    fresh id to the visited set of the left type *)
+Definition compare_fields_with (recurse : N -> N -> vstate -> result (bool * vstate))
+  (ap' bp' : glist) (fa fb : field) (st : vstate) : result (bool * vstate) :=
+  if negb (opt_str_eqb (f_name fa) (f_name fb)) then Ok (false, st)
+  else
+    let skipped_or_wrapped :=
+      match index_for_type_id ap' (f_ty fa), index_for_type_id bp' (f_ty fb) with
+      | Some _, Some _ => false
+      | _, _ => true
+      end in
+    match f_type_name fa, f_type_name fb with
+    | Some na, Some nb =>
+        if skipped_or_wrapped then recurse (f_ty fa) (f_ty fb) st
+        else Ok (opt_nat_eqb (index_for_type_name ap' na) (index_for_type_name bp' nb), st)
+    | _, _ => recurse (f_ty fa) (f_ty fb) st
+    end.
+
+Definition fields_equal_with (recurse : N -> N -> vstate -> result (bool * vstate))
+  (ap' bp' : glist) (fa fb : list field) (st : vstate) : result (bool * vstate) :=
+  if negb (Nat.eqb (List.length fa) (List.length fb)) then Ok (false, st)
+  else all2 (compare_fields_with recurse ap' bp') fa fb st.
+
+Definition teq_def (recurse : N -> N -> vstate -> result (bool * vstate))
+  (ap' bp' : glist) (ta tb : ty) (st : vstate) : result (bool * vstate) :=
+  match t_def ta, t_def tb with
+  | TDComposite fa, TDComposite fb => fields_equal_with recurse ap' bp' fa fb st
+  | TDVariant va, TDVariant vb =>
+      if negb (Nat.eqb (List.length va) (List.length vb)) then Ok (false, st)
+      else all2 (fun x y st =>
+                   if String.eqb (v_name x) (v_name y)
+                   then fields_equal_with recurse ap' bp' (v_fields x) (v_fields y) st
+                   else Ok (false, st)) va vb st
+  | TDSequence x, TDSequence y => recurse x y st
+  | TDArray la x, TDArray lb y =>
+      if N.eqb la lb then recurse x y st else Ok (false, st)
+  | TDTuple xs, TDTuple ys =>
+      if negb (Nat.eqb (List.length xs) (List.length ys)) then Ok (false, st)
+      else all2 recurse xs ys st
+  | TDPrimitive p, TDPrimitive q => Ok (prim_eqb p q, st)
+  | TDCompact x, TDCompact y => recurse x y st
+  | TDBitSeq sa oa, TDBitSeq sb ob =>
+      let* o := recurse oa ob st in
+      let* s' := recurse sa sb (snd o) in
+      Ok (fst o && fst s', snd s')
+  | _, _ => Ok (false, st)
+  end.
+
+Lemma teq_S r fuel' a ap b bp st :
+  teq r (S fuel') a ap b bp st =
+  if N.eqb a b then Ok (true, st)
+  else
+    let seen_a := mem_N a (fst st) in
+    let seen_b := mem_N b (snd st) in
+    let st := ((if seen_a then fst st else a :: fst st),
+               (if seen_b then snd st else b :: snd st)) in
+    if negb (Bool.eqb seen_a seen_b) then Ok (false, st)
+    else if seen_a && seen_b then Ok (true, st)
+    else
+      let a_idx := index_for_type_id ap a in
+      let b_idx := index_for_type_id bp b in
+      match resolve r a, resolve r b with
+      | None, _ => Panic "type a should exist in registry"
+      | _, None => Panic "type b should exist in registry"
+      | Some ta, Some tb =>
+        if opt_nat_eqb a_idx b_idx then Ok (true, st)
+        else if negb (path_eqb (t_path ta) (t_path tb)) then Ok (false, st)
+        else
+          teq_def (fun x y st => teq r fuel' x (glist_extend ap (t_params ta)) y
+                                     (glist_extend bp (t_params tb)) st)
+                  (glist_extend ap (t_params ta)) (glist_extend bp (t_params tb)) ta tb st
+      end.
+Proof. reflexivity. Qed.
+
+Section TeqTotal.
+  Variable r : registry.
+  Hypothesis Hcl : closed r.
+
+  Definition vgood (st : vstate) : Prop := good r (fst st) /\ good r (snd st).
+
+  (** a state transformer that succeeds, keeps the invariant and only grows the left set *)
+  Definition tspec (fuel : nat) (f : vstate -> result (bool * vstate)) : Prop :=
+    forall st, vgood st -> List.length r + 1 <= fuel + List.length (fst st) ->
+    exists res, f st = Ok res /\ vgood (snd res) /\ List.length (fst st) <= List.length (fst (snd res)).
+
+  Lemma tspec_ret fuel b : tspec fuel (fun st => Ok (b, st)).
+  Proof. intros st Hg Hl. exists (b, st). auto. Qed.
+
+  Lemma all2_spec {A} fuel (Q : A -> Prop) f :
+    (forall x y, Q x -> Q y -> tspec fuel (f x y)) ->
+    forall la lb, Forall Q la -> Forall Q lb -> tspec fuel (all2 f la lb).
+  Proof.
+    intros Hf. induction la as [|x la IH]; intros lb Hla Hlb st Hg Hl.
+    - exists (true, st). destruct lb; auto.
+    - destruct lb as [|y lb]; [exists (true, st); auto|].
+      inversion Hla as [|x0 l0 Qx Hla']; subst. inversion Hlb as [|y0 l1 Qy Hlb']; subst.
+      cbn [all2]. destruct (Hf x y Qx Qy st Hg Hl) as (res & Hres & Hg' & Hle).
+      rewrite Hres. cbn [bind]. destruct (fst res).
+      + destruct (IH lb Hla' Hlb' (snd res) Hg') as (res2 & Hres2 & Hg2 & Hle2); [lia|].
+        exists res2. split; [exact Hres2|]. split; [exact Hg2|lia].
+      + exists (false, snd res). auto.
+  Qed.
+
+  Definition rspec (fuel : nat) (recurse : N -> N -> vstate -> result (bool * vstate)) : Prop :=
+    forall x y, in_reg r x -> in_reg r y -> tspec fuel (recurse x y).
+
+  Definition field_in (f : field) : Prop := in_reg r (f_ty f).
+
+  Lemma compare_fields_spec fuel recurse ap' bp' fa fb :
+    rspec fuel recurse -> field_in fa -> field_in fb ->
+    tspec fuel (compare_fields_with recurse ap' bp' fa fb).
+  Proof.
+    intros Hr Ha Hb. unfold compare_fields_with.
+    destruct (negb (opt_str_eqb (f_name fa) (f_name fb))); [apply tspec_ret|]. cbv zeta.
+    destruct (f_type_name fa) as [na|]; [|apply Hr; assumption].
+    destruct (f_type_name fb) as [nb|]; [|apply Hr; assumption].
+    destruct (match index_for_type_id ap' (f_ty fa), index_for_type_id bp' (f_ty fb) with
+              | Some _, Some _ => false
+              | _, _ => true
+              end); [apply Hr; assumption|apply tspec_ret].
+  Qed.
+
+  Lemma fields_equal_spec fuel recurse ap' bp' fa fb :
+    rspec fuel recurse -> Forall field_in fa -> Forall field_in fb ->
+    tspec fuel (fields_equal_with recurse ap' bp' fa fb).
+  Proof.
+    intros Hr Ha Hb. unfold fields_equal_with.
+    destruct (negb (Nat.eqb (List.length fa) (List.length fb))); [apply tspec_ret|].
+    apply (all2_spec fuel field_in); [|exact Ha|exact Hb].
+    intros x y Hx Hy. apply compare_fields_spec; assumption.
+  Qed.
+
+  Lemma def_ids_in id t : resolve r id = Some t -> forall c, In c (def_ids (t_def t)) -> in_reg r c.
+  Proof. intros Ht c Hc. eapply Hcl; [exact Ht|]. apply in_or_app; right; exact Hc. Qed.
+
+  Lemma teq_def_spec fuel recurse ap' bp' a b ta tb :
+    rspec fuel recurse -> resolve r a = Some ta -> resolve r b = Some tb ->
+    tspec fuel (teq_def recurse ap' bp' ta tb).
+  Proof.
+    intros Hr Ha Hb. pose proof (def_ids_in _ _ Ha) as Ia. pose proof (def_ids_in _ _ Hb) as Ib.
+    unfold teq_def.
+    destruct (t_def ta) as [fa|va|x|la x|xs|p|x|sa oa]; destruct (t_def tb) as [fb|vb|y|lb y|ys|q|y|sb ob];
+      try apply tspec_ret; cbn [def_ids] in Ia, Ib.
+    - apply fields_equal_spec; [exact Hr| |]; apply Forall_forall; intros f Hf; unfold field_in;
+        [apply Ia|apply Ib]; apply in_map; exact Hf.
+    - destruct (negb (Nat.eqb (List.length va) (List.length vb))); [apply tspec_ret|].
+      apply (all2_spec fuel (fun v => Forall field_in (v_fields v))).
+      + intros v w Hv Hw. destruct (String.eqb (v_name v) (v_name w)); [|apply tspec_ret].
+        apply fields_equal_spec; assumption.
+      + apply Forall_forall. intros v Hv. apply Forall_forall. intros f Hf. apply Ia.
+        apply in_flat_map. exists v. split; [exact Hv|apply in_map; exact Hf].
+      + apply Forall_forall. intros v Hv. apply Forall_forall. intros f Hf. apply Ib.
+        apply in_flat_map. exists v. split; [exact Hv|apply in_map; exact Hf].
+    - apply Hr; [apply Ia|apply Ib]; left; reflexivity.
+    - destruct (N.eqb la lb); [|apply tspec_ret]. apply Hr; [apply Ia|apply Ib]; left; reflexivity.
+    - destruct (negb (Nat.eqb (List.length xs) (List.length ys))); [apply tspec_ret|].
+      apply (all2_spec fuel (in_reg r)); [exact Hr| |]; apply Forall_forall; auto.
+    - apply Hr; [apply Ia|apply Ib]; left; reflexivity.
+    - intros st Hg Hl.
+      destruct (Hr oa ob (Ia _ (or_intror (or_introl eq_refl))) (Ib _ (or_intror (or_introl eq_refl))) st Hg Hl)
+        as (o & Ho & Hgo & Hlo).
+      rewrite Ho. cbn [bind].
+      destruct (Hr sa sb (Ia _ (or_introl eq_refl)) (Ib _ (or_introl eq_refl)) (snd o) Hgo) as (s' & Hs & Hgs & Hls);
+        [lia|].
+      rewrite Hs. cbn [bind]. eexists; split; [reflexivity|]. cbn [snd fst]. split; [exact Hgs|lia].
+  Qed.
+
+  Lemma teq_total : forall fuel a ap b bp, in_reg r a -> in_reg r b -> tspec fuel (teq r fuel a ap b bp).
+  Proof.
+    induction fuel as [|fuel IH]; intros a ap b bp Ha Hb st Hg Hl.
+    - destruct Hg as [Hg _]. pose proof (good_length _ _ Hg). lia.
+    - rewrite teq_S. destruct (N.eqb a b); [exists (true, st); auto|]. cbv zeta.
+      destruct Hg as [Hga Hgb].
+      destruct (mem_N a (fst st)) eqn:Ea; destruct (mem_N b (snd st)) eqn:Eb; cbn [negb Bool.eqb andb].
+      + eexists; split; [reflexivity|]. cbn [fst snd]. split; [split; assumption|lia].
+      + eexists; split; [reflexivity|]. cbn [fst snd]. split; [|lia].
+        split; [assumption|apply good_cons; assumption].
+      + eexists; split; [reflexivity|]. cbn [fst snd]. split; [|cbn [List.length]; lia].
+        split; [apply good_cons; assumption|assumption].
+      + destruct (resolve_in_reg _ _ Ha) as (ta & Hta). destruct (resolve_in_reg _ _ Hb) as (tb & Htb).
+        rewrite Hta, Htb.
+        assert (Hg1 : vgood (a :: fst st, b :: snd st)).
+        { split; cbn [fst snd]; apply good_cons; assumption. }
+        destruct (opt_nat_eqb (index_for_type_id ap a) (index_for_type_id bp b)).
+        { eexists; split; [reflexivity|]. cbn [fst snd]. split; [exact Hg1|cbn [List.length]; lia]. }
+        destruct (negb (path_eqb (t_path ta) (t_path tb))).
+        { eexists; split; [reflexivity|]. cbn [fst snd]. split; [exact Hg1|cbn [List.length]; lia]. }
+        destruct (teq_def_spec fuel
+                    (fun x y st0 => teq r fuel x (glist_extend ap (t_params ta)) y
+                                        (glist_extend bp (t_params tb)) st0)
+                    (glist_extend ap (t_params ta)) (glist_extend bp (t_params tb)) a b ta tb)
+          with (st := (a :: fst st, b :: snd st)) as (res & Hres & Hgr & Hlr); try assumption.
+        * intros x y Hx Hy. apply IH; assumption.
+        * cbn [fst List.length]. lia.
+        * exists res. split; [exact Hres|]. split; [exact Hgr|]. cbn [fst List.length] in Hlr. lia.
+  Qed.
+
+  Theorem types_equal_total a b : in_reg r a -> in_reg r b -> exists x, types_equal r a b = Ok x.
+  Proof.
+    intros Ha Hb. unfold types_equal, types_equal_res.
+    destruct (teq_total (S (S (List.length r))) a glist_empty b glist_empty Ha Hb ([], []))
+      as (res & Hres & _).
+    - split; apply good_nil.
+    - cbn [fst List.length]. lia.
+    - rewrite Hres. cbn [bind]. eauto.
+  Qed.
+End TeqTotal.
+
+(** ** C10_total *)
+Theorem generate_total_types_equal r s rank :
+  generable r s rank ->
+  (exists m, generate r s (types_equal r) = Ok m /\ exists toks, emit_module s m = Ok toks) \/
+  (exists p, generate r s (types_equal r) = Err (EDuplicatePath p)).
+Proof.
+  intros Hgen.
+  destruct (generate_total r s rank Hgen (types_equal r)) as [(m & Hm & Hgood)|Hdup].
+  - intros a b. apply types_equal_total. exact (proj1 (proj1 (proj2 Hgen))).
+  - left. exists m. split; [exact Hm|]. apply emit_module_total.
+    intros p id ir Hin. exact (proj2 (Hgood _ _ _ Hin)).
+  - right. exact Hdup.
+Qed.
